@@ -185,7 +185,8 @@ pub fn replay(path: &str) -> ! {
             .get("alt")
             .and_then(|a| a.as_bool())
             .unwrap_or((rep.scripts + seed) % 2 == 0);
-        let (found, checks) = run_script(&script, alt);
+        let (found, checks) = catch_unwind(AssertUnwindSafe(|| run_script(&script, alt)))
+            .unwrap_or_else(|_| (vec!["panic while executing the script".to_string()], 1));
         rep.checks += checks;
         // non-trivial: at least two raw entries, or an entry outside some view
         if script["raw"].as_array().map(|a| a.len()).unwrap_or(0) >= 1 {
